@@ -676,6 +676,36 @@ func genG1(seed uint64, prop string) *Scenario {
 			sess++
 			sc.Steps = append(sc.Steps, Step{T: "handover", Sess: sess, A: g.pick(2)})
 		default:
+			if g.chance(1, 8) && len(g.nis) > 1 {
+				// cross-instance reference, flush of only the group's instance, group re-created, deletes attempted
+				a, b := g.nis[g.pick(len(g.nis))], g.nis[g.pick(len(g.nis))]
+				if a != b {
+					nhI, gI := uint64(1+g.pick(4)), uint64(1+g.pick(4))
+					mkNH := func() *spb.AFTOperation {
+						return &spb.AFTOperation{Id: g.id(), NetworkInstance: a, Op: spb.AFTOperation_ADD, Entry: &spb.AFTOperation_NextHop{NextHop: g.nhPayload(nhI)}}
+					}
+					mkG := func() *spb.AFTOperation {
+						return &spb.AFTOperation{Id: g.id(), NetworkInstance: a, Op: spb.AFTOperation_ADD, Entry: &spb.AFTOperation_NextHopGroup{NextHopGroup: &aftpb.Afts_NextHopGroupKey{Id: gI, NextHopGroup: &aftpb.Afts_NextHopGroup{NextHop: []*aftpb.Afts_NextHopGroup_NextHopKey{{Index: nhI, NextHop: &aftpb.Afts_NextHopGroup_NextHop{Weight: u(g.mark())}}}}}}}
+					}
+					top := g.entry(spb.AFTOperation_ADD, []Kind{KV4, KV6, KMPLS}[g.pick(3)], b)
+					switch t := top.Entry.(type) {
+					case *spb.AFTOperation_Ipv4:
+						t.Ipv4.Ipv4Entry.NextHopGroup, t.Ipv4.Ipv4Entry.NextHopGroupNetworkInstance = u(gI), sv(a)
+					case *spb.AFTOperation_Ipv6:
+						t.Ipv6.Ipv6Entry.NextHopGroup, t.Ipv6.Ipv6Entry.NextHopGroupNetworkInstance = u(gI), sv(a)
+					case *spb.AFTOperation_Mpls:
+						t.Mpls.LabelEntry.NextHopGroup, t.Mpls.LabelEntry.NextHopGroupNetworkInstance = u(gI), sv(a)
+					}
+					sc.Steps = append(sc.Steps, g.batchStep(sess, []*spb.AFTOperation{mkNH(), mkG(), top}))
+					sc.Steps = append(sc.Steps, Step{T: "flush", Flush: &FlushSpec{NI: []string{a, b}[g.pick(2)], Override: true}})
+					sc.Steps = append(sc.Steps, g.batchStep(sess, []*spb.AFTOperation{mkNH(), mkG()}))
+					sc.Steps = append(sc.Steps, g.batchStep(sess, []*spb.AFTOperation{
+						{Id: g.id(), NetworkInstance: a, Op: spb.AFTOperation_DELETE, Entry: &spb.AFTOperation_NextHopGroup{NextHopGroup: &aftpb.Afts_NextHopGroupKey{Id: gI}}},
+						{Id: g.id(), NetworkInstance: a, Op: spb.AFTOperation_DELETE, Entry: &spb.AFTOperation_NextHop{NextHop: &aftpb.Afts_NextHopKey{Index: nhI}}},
+					}))
+					continue
+				}
+			}
 			if g.chance(1, 5) {
 				for _, req := range g.shape() {
 					sc.Steps = append(sc.Steps, g.batchStep(sess, req))
